@@ -77,6 +77,7 @@ type Result struct {
 	More      []*Violation `json:"more,omitempty"` // lib batches: one entry per panicking input
 	Died      bool         `json:"-"`              // parent side: the worker process died on this case
 	Micros    int64        `json:"us"`
+	SideCalls int          `json:"side_calls,omitempty"`
 }
 
 // fullWatchdog is the bound a violation is judged by. The exploration pass runs with
@@ -496,6 +497,8 @@ func lineSlug(loc string, full string) string {
 // running one connection through the real Run()
 
 type connRun struct {
+	side         *sideRun // free-running pass: the "other thread" is active, no oracle in between
+	sideCalls    int
 	tickOff      time.Duration
 	noDrain      bool // scripted: the node's main thread is busy, queues are not read
 	backpressure int
@@ -965,6 +968,17 @@ func runNet(n *nodeEnv, cs *Case) (res Result) {
 			pc.feed(nil, true, false, false)
 		case "boom":
 			pc.feed(nil, false, false, true)
+		case "side":
+			r.startSide(e.Cmd)
+			res.Handled++
+			continue
+		case "join":
+			r.sideCalls += r.joinSide()
+			if v := r.after(cs, i); v != nil {
+				return fail(i, v)
+			}
+			res.Handled++
+			continue
 		case "nodrain":
 			r.noDrain = true
 			res.Handled++
@@ -1057,6 +1071,9 @@ func runNet(n *nodeEnv, cs *Case) (res Result) {
 		}
 		res.Handled++
 	}
+	if r.side != nil {
+		r.sideCalls += r.joinSide()
+	}
 	if !ended {
 		if r.noDrain {
 			r.noDrain = false
@@ -1074,6 +1091,7 @@ func runNet(n *nodeEnv, cs *Case) (res Result) {
 		}
 	}
 	tr("teardown")
+	res.SideCalls = r.sideCalls
 	network.VerifDelConn(c)
 	n.spare = c // Run has returned through its tear-down and the writing thread is gone: the object can be reused
 	// outcome class of the connection
@@ -1109,6 +1127,9 @@ func runNet(n *nodeEnv, cs *Case) (res Result) {
 
 // after runs the per-message oracle once Run is parked again.
 func (r *connRun) after(cs *Case, i int) *Violation {
+	if r.side != nil {
+		return nil // free-running: the other thread takes and releases locks right now
+	}
 	cmd := r.evName(cs, i)
 	if held := r.heldLocks(); len(held) > 0 {
 		return &Violation{Key: "net/" + cmd + "/lock-held" + heldSuffix(held),
